@@ -8,13 +8,16 @@ from . import core as S
 
 
 class DemonicRng:
-    def __init__(self, tag='rng'):
+    def __init__(self, tag='rng', max_draws=None):
         self.tag = tag
         self.n = 0
         self.log = []
+        self.max_draws = max_draws      # histories longer than this many draws are cut (path ends; bound stated by the caller)
 
     def _name(self, kind):
         self.n += 1
+        if self.max_draws is not None and self.n > self.max_draws:
+            raise S.PathEnd()
         return '%s_%s_%d' % (self.tag, kind, self.n)
 
     def random(self):
@@ -102,7 +105,8 @@ class DemonicRng:
 class Tripwire:
     """stands in for a process-global generator (module `random`, np.random, torch RNG): records every use."""
 
-    def __init__(self, name, uses, delegate=None):
+    def __init__(self, name, uses, delegate=None, private_budget=None):
+        object.__setattr__(self, '_budget', private_budget)
         object.__setattr__(self, '_name', name)
         object.__setattr__(self, '_uses', uses)
         object.__setattr__(self, '_delegate', delegate or DemonicRng('ambient_' + name))
@@ -113,7 +117,7 @@ class Tripwire:
             def mk(seed=None):
                 if seed is None:
                     self._uses.append('%s.Random() seeded from system entropy' % self._name)
-                return DemonicRng('private')
+                return DemonicRng('private', max_draws=self._budget)
             return mk
         self._uses.append('%s.%s' % (self._name, attr))
         return getattr(self._delegate, attr)
